@@ -508,6 +508,25 @@ func judge(c Case, o dialOutcome, brokers []*broker) (string, bool) {
 			return fmt.Sprintf("the only broker reported a failure but Dial returned err=%v", o.err), rogueFirst
 		}
 	}
+	// several brokers, every one of them up and reporting a failure (and no legitimate connection anywhere):
+	// the dial ends with those failures, it does not sit out its time limit and drop them
+	if len(c.Brokers) >= 2 && c.Proxy == "" && !c.Nested && !silent {
+		allFail := true
+		for _, b := range c.Brokers {
+			replied := false
+			for _, e := range b.Order {
+				if e == -1 {
+					replied = true
+				}
+			}
+			if b.Down || b.Reply != "failure" || !replied || hasLegit(b) {
+				allFail = false
+			}
+		}
+		if allFail && (o.err == nil || !strings.Contains(o.err.Error(), failureMsg)) {
+			return fmt.Sprintf("all %d brokers reported a failure but Dial returned err=%v after %v", len(c.Brokers), o.err, o.elapsed.Round(time.Millisecond)), rogueFirst
+		}
+	}
 	if c.Proxy == "refuse" && len(c.Brokers) == 1 && !allDown && (o.err == nil || !strings.Contains(o.err.Error(), failureMsg)) {
 		return fmt.Sprintf("proxied mode: the broker refused with a message but Dial returned err=%v", o.err), rogueFirst
 	}
@@ -687,6 +706,16 @@ func TestC20Permutations(t *testing.T) {
 	}
 	cases = append(cases, Case{Brokers: []BrokerScript{{}}, Nested: true}, Case{Brokers: []BrokerScript{{Down: true}, {}}, Nested: true, Stagger: -1})
 	classes = append(classes, "proxied:nested", "proxied:nested")
+	for _, stg := range []int{0, 1, -1} { // two and three brokers, all reporting failure
+		for nb := 2; nb <= 3; nb++ {
+			var bs []BrokerScript
+			for i := 0; i < nb; i++ {
+				bs = append(bs, BrokerScript{Order: []int{-1}, Reply: "failure"})
+			}
+			cases = append(cases, Case{Stagger: stg, Brokers: bs})
+			classes = append(classes, "all-brokers-fail")
+		}
+	}
 	// two brokers: the rogue at A presents B's id; staggers
 	for _, stg := range []int{0, 1, -1} {
 		cases = append(cases, Case{Stagger: stg, Brokers: []BrokerScript{
